@@ -109,8 +109,9 @@ CLAIMS["C12"] = {
             "Pending; poll_finalize answers Done only after everything was delivered and every downstream finalized. Loop-free methods are "
             "complete for Item=u8; flat_map/flatten/persist/accumulate/sort drains and pull::send_push/send_sink are bounded (<= 3 buffered items).",
     "note": "Trusted: Kani+CBMC; std Vec and sort_unstable_by are trusted (sort harness uses concrete lengths 0..2); fold_keyed/reduce_keyed own an "
-            "FxHashMap and are NOT covered; resolve_futures, filter_map_async/flat_map_stream/flatten_stream (push side) and state_push have no "
-            "harness yet; re-polling poll_finalize of a downstream that already answered Done (fanout/unzip/demux) is tolerated by the havoc "
+            "FxHashMap and are covered in the thorough tier only (one key); filter_map_async (loop-free, complete), flat_map_stream and flatten_stream "
+            "(<= 2 further stream items per call) have step contracts with havoc futures / streams, state_push a step contract and a 3-poll finalize "
+            "trace; resolve_futures has no harness yet; re-polling poll_finalize of a downstream that already answered Done (fanout/unzip/demux) is tolerated by the havoc "
             "downstream, as the crate's own fused TestPush does.",
     "technique": "contract-based verification: Kani per-method contracts on the real combinators with symbolic own state and a protocol-asserting havoc downstream",
     "design": "DESIGN.md §5 C12",
